@@ -6,6 +6,35 @@ import Xandikos.Store.Spec
 namespace Xandikos.Store
 open Xandikos
 
+/-! ### commit helpers -/
+
+@[simp] theorem commit_files (s : St) (f : Map String) : (commit s f).files = f := rfl
+@[simp] theorem commit_kind (s : St) (f : Map String) : (commit s f).kind = s.kind := rfl
+@[simp] theorem commit_cache (s : St) (f : Map String) : (commit s f).cache = s.cache := rfl
+@[simp] theorem commit_worktree (s : St) (f : Map String) : (commit s f).worktree = s.worktree := rfl
+@[simp] theorem commit_locked (s : St) (f : Map String) : (commit s f).locked = s.locked := rfl
+@[simp] theorem commit_commits (s : St) (f : Map String) :
+    (commit s f).commits = s.commits ++ [f] := rfl
+
+@[simp] theorem commitIfChanged_files (s : St) (f : Map String) :
+    (commitIfChanged s f).files = f := by
+  unfold commitIfChanged; split <;> simp_all
+@[simp] theorem commitIfChanged_kind (s : St) (f : Map String) :
+    (commitIfChanged s f).kind = s.kind := by
+  unfold commitIfChanged; split <;> simp
+@[simp] theorem commitIfChanged_cache (s : St) (f : Map String) :
+    (commitIfChanged s f).cache = s.cache := by
+  unfold commitIfChanged; split <;> simp
+@[simp] theorem commitIfChanged_worktree (s : St) (f : Map String) :
+    (commitIfChanged s f).worktree = s.worktree := by
+  unfold commitIfChanged; split <;> simp
+@[simp] theorem commitIfChanged_locked (s : St) (f : Map String) :
+    (commitIfChanged s f).locked = s.locked := by
+  unfold commitIfChanged; split <;> simp
+theorem commitIfChanged_commits (s : St) (f : Map String) :
+    (commitIfChanged s f).commits = if f = s.files then s.commits else s.commits ++ [f] := by
+  unfold commitIfChanged; split <;> simp
+
 /-! ### what a write does to the abstract contents -/
 
 theorem writeOne_files (s : St) (n c : String) :
@@ -13,21 +42,16 @@ theorem writeOne_files (s : St) (n c : String) :
     ((writeOne s n c).2 = .locked ∧ (writeOne s n c).1 = s) := by
   unfold writeOne
   cases s.kind with
-  | bare =>
-    left
-    by_cases hc : s.files.insert n c = s.files <;> simp [hc]
+  | bare => left; simp
   | vdir => left; simp
   | tree =>
     by_cases hl : s.locked = true
     · right; simp [hl]
-    · left
-      by_cases hc : s.files[n]? = some c
-      · simp [hl, hc, Map.insert_same hc]
-      · simp [hl, hc]
+    · left; simp [hl]
 
 theorem writeOne_kind (s : St) (n c : String) : (writeOne s n c).1.kind = s.kind := by
   unfold writeOne
-  cases h : s.kind <;> simp <;> (repeat' split) <;> simp [h]
+  cases h : s.kind <;> simp only [] <;> (repeat' split) <;> simp [h]
 
 theorem dupError_notOk (c : Cache) (uid : Option String) (n : String) (e : Out)
     (h : dupError c uid n = some e) : e.isOk = false := by
@@ -81,7 +105,12 @@ theorem importOne_spec (env : Env) (s : St) (n : String) (ct : Option String) (t
 theorem deleteOne_spec (s : St) (n : String) (e : Option String) :
     (deleteOne s n e).1.files = Spec.apply s.files (.del n e) (some (deleteOne s n e).2) := by
   unfold deleteOne
-  cases s.kind <;> simp only [] <;> (repeat' split) <;> simp [Spec.apply]
+  simp only []
+  split
+  · simp [Spec.apply]
+  · split
+    · simp [Spec.apply]
+    · cases s.kind <;> simp only [] <;> (repeat' split) <;> simp [Spec.apply]
 
 theorem step_refines (env : Env) (s : St) (op : Op) :
     (step env s op).1.files = Spec.apply s.files op (step env s op).2 := by
